@@ -3,9 +3,9 @@ from __future__ import annotations
 
 import itertools
 
-from qstatic.alg import Poly, SQ, SC, P, is_unknown
+from qstatic.alg import Poly, SQ, SC, P
 from qstatic.dom_sym import SymArr, mk, wrap
-from qstatic.interp import PathExplorer, Instance
+from qstatic.interp import PathExplorer
 
 
 def indices(shape):
